@@ -236,12 +236,22 @@ var c20SchemaFirst bool
 // c20NullSecond: the next nullable registration puts null SECOND in the registered union.
 var c20NullSecond bool
 
+// c20Logical: the next registration's schema carries a logicalType attribute
+// (the registered schema is emitted attribute for attribute).
+var c20Logical bool
+
+const c20LogicalName = "verif-marked"
+
 func c20Register(ti, j int, nullable bool) {
 	def := customDefs[ti]
 	regSchema := func() {
-		lib := avro.Schema{Type: def.wireKind()}
+		plain := avro.Schema{Type: def.wireKind()}
+		if c20Logical {
+			plain.Object = &avro.SchemaObject{Type: def.wireKind(), LogicalType: c20LogicalName}
+		}
+		lib := plain
 		if nullable {
-			lib = avro.Schema{Type: "union", Union: []avro.Schema{{Type: "null"}, {Type: def.wireKind()}}}
+			lib = avro.Schema{Type: "union", Union: []avro.Schema{{Type: "null"}, plain}}
 			if c20NullSecond {
 				lib.Union[0], lib.Union[1] = lib.Union[1], lib.Union[0]
 			}
@@ -263,6 +273,9 @@ func c20Register(ti, j int, nullable bool) {
 	})
 	lib := avro.Schema{Type: def.wireKind()}
 	model := ref.Prim(def.wireKind())
+	if c20Logical {
+		model = ref.Schema{Kind: def.wireKind(), LogicalType: c20LogicalName, ObjectForm: true}
+	}
 	if nullable {
 		lib = avro.Schema{Type: "union", Union: []avro.Schema{{Type: "null"}, {Type: def.wireKind()}}}
 		if c20NullSecond {
@@ -377,6 +390,7 @@ type c20Op struct {
 	Builder     int  `json:"builder,omitempty"`
 	Nullable    bool `json:"nullable,omitempty"`
 	NullSecond  bool `json:"null_second,omitempty"` // with Nullable: the registered union is [T, null]
+	Logical     bool `json:"logical,omitempty"`     // the registered schema carries a logicalType attribute
 	// roundtrip
 	TS      spec.TypeSpec    `json:"ts,omitempty"`
 	GoType  string           `json:"go_type,omitempty"`
@@ -440,9 +454,11 @@ func runC20(c c20Case) (bool, []string, error) {
 		if op.Register {
 			c20SchemaFirst = op.SchemaFirst
 			c20NullSecond = op.NullSecond
+			c20Logical = op.Logical
 			c20Register(op.Type%len(customDefs), op.Builder%2, op.Nullable)
 			c20NullSecond = false
 			c20SchemaFirst = false
+			c20Logical = false
 			reRegistered = true
 			continue
 		}
@@ -793,7 +809,7 @@ func drawC20(t *rapid.T) c20Case {
 			continue
 		}
 		if gen.Uniform(t, "op", 3) == 0 {
-			c.Ops = append(c.Ops, c20Op{Register: true, Type: gen.Uniform(t, "type", 6), Builder: gen.Uniform(t, "builder", 2), Nullable: rapid.Bool().Draw(t, "nullable"), NullSecond: gen.Uniform(t, "nullSecond", 3) == 0, SchemaFirst: rapid.Bool().Draw(t, "schemaFirst")})
+			c.Ops = append(c.Ops, c20Op{Register: true, Type: gen.Uniform(t, "type", 6), Builder: gen.Uniform(t, "builder", 2), Nullable: rapid.Bool().Draw(t, "nullable"), NullSecond: gen.Uniform(t, "nullSecond", 3) == 0, SchemaFirst: rapid.Bool().Draw(t, "schemaFirst"), Logical: gen.Uniform(t, "logicalAttr", 3) == 0})
 			continue
 		}
 		ts := gen.StructType(t, gen.TypeOpts{MaxDepth: 3, MaxFields: 4, Leaves: leaves}, 1)
